@@ -258,6 +258,10 @@ class JsonSchemaParser:
         dependent_required = schema.get('dependentRequired')
         pattern_properties = schema.get("patternProperties")  # not supported now
 
+        if min_properties and unprovided(additional_properties) and properties:
+            # undeclared properties are allowed and count: keep them, so that the result has what was counted
+            additional_properties = True
+
         if max_properties == 0 and not isinstance(max_properties, bool) and not required:
             # only the empty object is valid: no property can be present
             properties = {}
